@@ -223,6 +223,7 @@ func NewWorld(u *Universe, raw cache.Client, initial []Leaf, o WorldOpts) (*Worl
 	}
 	w.Dev = NewDevice()
 	w.Dev.RenderAll = o.RenderAll
+	w.Dev.Log = lg
 	w.Target = w.Dev
 	w.DS = datastore.NewForVerif(w.Cfg, w.SC, w.CC, w.Target)
 	if o.MakeTarget != nil {
